@@ -7,7 +7,9 @@ import os
 import sys
 
 from vc import trees as T
-from depccg.printer import conll, xml as xml_printer, jigg_xml
+from depccg.printer import conll, xml as xml_printer, jigg_xml, auto
+from depccg.tools import reader
+from depccg.utils import denormalize
 
 Tree, Token = T.Tree, T.Token
 MAXW = int(os.environ.get('VERIF_REPLAY_WORDS', '4'))
@@ -98,6 +100,32 @@ def span_recs(v, t, sid, p, c, use_symbol):
     return [own] + span_recs(v[1], t.children[0], sid, p + 1, c, use_symbol) + span_recs(v[2], t.children[1], sid, p + 1 + nnodes(v[1]), c + nleaves(v[1]), use_symbol)
 
 
+def auto_pieces(v, t):
+    """twin of auto_tokat: the blank-separated pieces of the AUTO text"""
+    if v[0] == 'L':
+        pos = t.token.get('pos', 'POS')
+        return ['(<L', str(t.cat), pos, pos, denormalize(t.word), str(t.cat) + '>)']
+    if v[0] == 'U':
+        return ['(<T', str(t.cat), '0', '1>'] + auto_pieces(v[1], t.children[0]) + [')']
+    return ['(<T', str(t.cat), '0' if v[3] else '1', '2>'] + auto_pieces(v[1], t.children[0]) + auto_pieces(v[2], t.children[1]) + [')']
+
+
+def iso_view(t):
+    if t.is_leaf:
+        return ('L', str(t.cat), t.token.get('pos', 'POS'), t.token['word'])
+    if t.is_unary:
+        return ('U', str(t.cat), iso_view(t.children[0]))
+    return ('B', str(t.cat), bool(t.head_is_left), iso_view(t.children[0]), iso_view(t.children[1]))
+
+
+def iso_spec(v, t):
+    if v[0] == 'L':
+        return ('L', str(t.cat), t.token.get('pos', 'POS'), denormalize(t.word))
+    if v[0] == 'U':
+        return ('U', str(t.cat), iso_spec(v[1], t.children[0]))
+    return ('B', str(t.cat), bool(v[3]), iso_spec(v[1], t.children[0]), iso_spec(v[2], t.children[1]))
+
+
 out = {}
 
 
@@ -144,5 +172,22 @@ for n in range(1, MAXW + 1):
                     p += nnodes(vv)
             except Exception as e:      # noqa
                 note('depccg/printer/jigg_xml.py::_ConvertToJiggXML.process', v, 'raises %s: %s' % (type(e).__name__, e), None)
+        # AUTO: the printed text is the pieces of the spec; reading it yields a tree iso to the one printed
+        try:
+            got = auto.auto_of(t).split(' ')
+        except Exception as e:      # noqa
+            got = 'raises %s: %s' % (type(e).__name__, e)
+        want = auto_pieces(v, t)
+        if got != want:
+            note('depccg/printer/auto.py::auto_of', v, got, want)
+        try:
+            T.lang.set_global_language_to('en')
+            r, _ = reader._AutoLineReader(' '.join(want)).parse()
+            got = iso_view(r)
+        except Exception as e:      # noqa
+            got = 'raises %s: %s' % (type(e).__name__, e)
+        want = iso_spec(v, t)
+        if got != want:
+            note('depccg/tools/reader.py::_AutoLineReader', v, got, want)
         prev = (v, t)
 print(json.dumps(dict(results=out, rule='every tree view with <= %d words, unary chains of length 1, both head directions; Jigg: each tree after the previous one on the same converter' % MAXW)))
